@@ -216,9 +216,24 @@ class TrigTime:
                 cls.dow2int[name[0:3]] = idx
 
     @classmethod
-    async def wait_until(
+    async def wait_until(cls, ast_ctx, *args, **kwargs):
+        """Wait for zero or more triggers, until an optional timeout."""
+        cleanup = []
+        try:
+            return await cls._wait_until(ast_ctx, cleanup, *args, **kwargs)
+        finally:
+            #
+            # release whatever is still registered, eg if this task is canceled while
+            # waiting (the notify_del functions do nothing if already removed)
+            #
+            for notify_del, notify_args in cleanup:
+                notify_del(*notify_args)
+
+    @classmethod
+    async def _wait_until(
         cls,
         ast_ctx,
+        cleanup,
         state_trigger=None,
         state_check_now=True,
         time_trigger=None,
@@ -323,6 +338,7 @@ class TrigTime:
                 state_trig_ident,
             )
             if len(state_trig_ident) > 0:
+                cleanup.append((State.notify_del, (state_trig_ident, notify_q)))
                 await State.notify_add(state_trig_ident, notify_q)
         if event_trigger is not None:
             if isinstance(event_trigger, str):
@@ -340,6 +356,7 @@ class TrigTime:
                     if len(state_trig_ident) > 0:
                         State.notify_del(state_trig_ident, notify_q)
                     raise
+            cleanup.append((Event.notify_del, (event_trigger[0], notify_q)))
             Event.notify_add(event_trigger[0], notify_q)
         if mqtt_trigger is not None:
             if isinstance(mqtt_trigger, str):
@@ -357,6 +374,7 @@ class TrigTime:
                     if len(state_trig_ident) > 0:
                         State.notify_del(state_trig_ident, notify_q)
                     raise
+            cleanup.append((Mqtt.notify_del, (mqtt_trigger[0], notify_q)))
             await Mqtt.notify_add(mqtt_trigger[0], notify_q, encoding=mqtt_trigger_encoding)
         if webhook_trigger is not None:
             if isinstance(webhook_trigger, str):
@@ -376,6 +394,7 @@ class TrigTime:
                     raise
             if webhook_methods is None:
                 webhook_methods = {"POST", "PUT"}
+            cleanup.append((Webhook.notify_del, (webhook_trigger[0], notify_q)))
             Webhook.notify_add(webhook_trigger[0], webhook_local_only, webhook_methods, notify_q)
 
         time0 = time.monotonic()
